@@ -17,6 +17,7 @@ import (
 	"bufio"
 	"context"
 	"fmt"
+	"github.com/honeytrap/honeytrap/services/decoder"
 	"net"
 	"strings"
 
@@ -77,6 +78,11 @@ func (s *snmpService) Handle(_ context.Context, conn net.Conn) error {
 	buf := make([]byte, asnSize)
 	n, err := b.Read(buf)
 	if err != nil {
+		return err
+	}
+
+	// the asn1 decoder allocates by announced length: nested lengths must fit
+	if err := decoder.CheckBER(buf[:n]); err != nil {
 		return err
 	}
 
